@@ -22,13 +22,12 @@ Definition oracle (i : cfg_input) (tr : list obs) : bool := cfg_oracle i tr.
 
    F1 emptied_list_saved: save() is called while a list option is pending with NO elements
       (emptied in place, or assigned []).
-   F2 failed_listop_marks_pending: an in-place operation that raises (pop on an empty list,
-      remove of a missing element, index out of range) on an option that has nothing pending.
+   (F2 failed_listop_marks_pending is repaired in the source.)
    F3 edit_while_detached: an in-place operation on an option whose pending value is not the
       list a read returns: the option was assigned since the last save() attempt, or its
       pending value is a string (comma list assigned as text), or Tor announced a new value
       for it (CONF_CHANGED) while it was pending. *)
-Record mon := { m_st : ost; m_det : list bytes; m_f1 : bool; m_f2 : bool; m_f3 : bool }.
+Record mon := { m_st : ost; m_det : list bytes; m_f1 : bool; m_f3 : bool }.
 
 Section Mon.
   Variable opts : list (bytes * kind).
@@ -48,17 +47,15 @@ Section Mon.
         match dfind_ci name opts with
         | Some (cn, k) =>
             match spec_validate k v with
-            | Some _ => {| m_st := st'; m_det := cn :: m_det m; m_f1 := m_f1 m; m_f2 := m_f2 m; m_f3 := m_f3 m |}
-            | None => {| m_st := st'; m_det := m_det m; m_f1 := m_f1 m; m_f2 := m_f2 m; m_f3 := m_f3 m |}
+            | Some _ => {| m_st := st'; m_det := cn :: m_det m; m_f1 := m_f1 m; m_f3 := m_f3 m |}
+            | None => {| m_st := st'; m_det := m_det m; m_f1 := m_f1 m; m_f3 := m_f3 m |}
             end
         | None => m
         end
     | OpListOp name lo =>
         match dfind_ci name opts with
         | Some (cn, k) =>
-            let fails := match py_list_op lo (cur_list defaults st cn k) with inl _ => false | inr _ => true end in
             {| m_st := st'; m_det := m_det m; m_f1 := m_f1 m;
-               m_f2 := m_f2 m || (fails && negb (dmem cn (s_pend st)));
                m_f3 := m_f3 m || mem_bytes cn (m_det m) |}
         | None => m
         end
@@ -68,14 +65,14 @@ Section Mon.
         | pend =>
             {| m_st := st';
                m_det := match rej with None => [] | Some _ => scalar_keys pend end;
-               m_f1 := m_f1 m || has_empty_list pend; m_f2 := m_f2 m; m_f3 := m_f3 m |}
+               m_f1 := m_f1 m || has_empty_list pend; m_f3 := m_f3 m |}
         end
     | OpEvent items =>
         {| m_st := st';
            m_det := concat (map (fun it : bytes * option bytes =>
                                    let cn := canon opts (fst it) in
                                    if dmem cn (s_pend st) then [cn] else []) items) ++ m_det m;
-           m_f1 := m_f1 m; m_f2 := m_f2 m; m_f3 := m_f3 m |}
+           m_f1 := m_f1 m; m_f3 := m_f3 m |}
     | OpRead _ | OpNeedsSave | OpSocks => m
     end.
 
@@ -84,11 +81,10 @@ End Mon.
 
 Definition mon_of (i : cfg_input) : mon :=
   mon_run (options (i_table i)) (i_defaults i)
-          {| m_st := init_ost i; m_det := []; m_f1 := false; m_f2 := false; m_f3 := false |} (i_ops i).
+          {| m_st := eff_ost i; m_det := []; m_f1 := false; m_f3 := false |} (i_ops i).
 
 Definition emptied_list_saved (i : cfg_input) : bool := m_f1 (mon_of i).
-Definition failed_listop_marks_pending (i : cfg_input) : bool := m_f2 (mon_of i).
 Definition edit_while_detached (i : cfg_input) : bool := m_f3 (mon_of i).
 
 Definition c10_known (i : cfg_input) : bool :=
-  emptied_list_saved i || failed_listop_marks_pending i || edit_while_detached i.
+  emptied_list_saved i || edit_while_detached i.
